@@ -1,7 +1,7 @@
 (* Properties/C13.v — Headers and uncles are accepted iff they satisfy the consensus rules.
    Only statements closed by `exact`, with Print Assumptions under each. *)
 From AQ Require Import Lib.Bytes Generated.GenParamsConsensus
-  Consensus.HeaderModel Consensus.HeaderSpec Consensus.HeaderProofs.
+  Consensus.HeaderModel Consensus.HeaderSpec Consensus.HeaderProofs Consensus.BatchProofs.
 Local Open Scope Z_scope.
 
 (* verifyHeader accepts exactly when, relative to the parent: number = parent + 1, timestamp strictly later and
@@ -58,28 +58,18 @@ Theorem C13_difficulty_fork_reset :
 Proof. exact difficulty_fork_reset. Qed.
 Print Assumptions C13_difficulty_fork_reset.
 
-Theorem C13_mainnet_resets :
+Theorem C13_builtin_fork_resets :
   forall (time : Z) (p : header) (gp : option header),
-    (h_number p + 1 = 3600 -> calc_difficulty mainnet_cfg time p gp = Ok 100001792) /\
-    (h_number p + 1 = 13026 -> calc_difficulty mainnet_cfg time p gp = Ok 30959185800) /\
-    (h_number p + 1 = 22800 -> calc_difficulty mainnet_cfg time p gp = Ok 46039386).
-Proof. exact mainnet_resets. Qed.
-Print Assumptions C13_mainnet_resets.
-
-Theorem C13_testnet_resets :
-  forall (time : Z) (p : header) (gp : option header),
-    (h_number p + 1 = 1 -> calc_difficulty testnet_cfg time p gp = Ok 100001792) /\
-    (h_number p + 1 = 3 -> calc_difficulty testnet_cfg time p gp = Ok 30959185800) /\
-    (h_number p + 1 = 5 -> calc_difficulty testnet_cfg time p gp = Ok 46039386) /\
-    (h_number p + 1 = 650 -> calc_difficulty testnet_cfg time p gp = Ok 46039386).
-Proof. exact testnet_resets. Qed.
-Print Assumptions C13_testnet_resets.
-
-Theorem C13_testnet2_reset :
-  forall (time : Z) (p : header) (gp : option header),
-    h_number p + 1 = 8 -> calc_difficulty testnet2_cfg time p gp = Ok 46039386.
-Proof. exact testnet2_reset. Qed.
-Print Assumptions C13_testnet2_reset.
+    ((h_number p + 1 = 3600 -> calc_difficulty mainnet_cfg time p gp = Ok 100001792) /\
+     (h_number p + 1 = 13026 -> calc_difficulty mainnet_cfg time p gp = Ok 30959185800) /\
+     (h_number p + 1 = 22800 -> calc_difficulty mainnet_cfg time p gp = Ok 46039386)) /\
+    ((h_number p + 1 = 1 -> calc_difficulty testnet_cfg time p gp = Ok 100001792) /\
+     (h_number p + 1 = 3 -> calc_difficulty testnet_cfg time p gp = Ok 30959185800) /\
+     (h_number p + 1 = 5 -> calc_difficulty testnet_cfg time p gp = Ok 46039386) /\
+     (h_number p + 1 = 650 -> calc_difficulty testnet_cfg time p gp = Ok 46039386)) /\
+    (h_number p + 1 = 8 -> calc_difficulty testnet2_cfg time p gp = Ok 46039386).
+Proof. exact builtin_fork_resets. Qed.
+Print Assumptions C13_builtin_fork_resets.
 
 (* never below the active minimum — wherever the rule in force enforces a minimum (minimum_enforced, HeaderSpec.v) *)
 Theorem C13_difficulty_ge_minimum_partial :
@@ -163,10 +153,56 @@ Theorem C13_batch_first_failure_schedule_independent :
     first_failure (b_delivered s1) 0 = first_failure (map v (seq 0 n)) 0.
 Proof. exact batch_first_failure_schedule_independent. Qed.
 Print Assumptions C13_batch_first_failure_schedule_independent.
-(* batch_equals_sequential_partial: that `map (verify_worker ..) [0..n)` has the same first failure as one-by-one
-   VerifyHeader (`sequential`) on a contiguous batch over an ancestor-closed chain is NOT proved here; it is
-   compared on the implementation and on the model by the harness (correspondence "VerifyHeader(one-by-one)~sequential"
-   and the direct oracle batch-vs-sequential). *)
+(* contiguous batch (what ValidateHeaderChain checks before calling VerifyHeaders) of headers not yet known to the
+   chain, numbers in [1, 2^64): the per-index worker results have the same first failure (index and error) as
+   verifying one by one with each accepted header inserted before the next is checked *)
+Theorem C13_workers_equal_sequential :
+  forall (c : cfg) (chain : list header) (now : Z) (hs : list header) (seals : list bool),
+    batch_ok chain hs ->
+    first_failure (map (verify_worker c chain now hs seals) (seq 0 (length hs))) 0 = sequential c chain now hs seals 0.
+Proof. exact workers_equal_sequential. Qed.
+Print Assumptions C13_workers_equal_sequential.
+
+(* batch_equals_sequential, in full: for EVERY schedule of the collector that runs to completion, the caller of
+   VerifyHeaders reads the same first failure as one-by-one VerifyHeader *)
+Theorem C13_batch_equals_sequential :
+  forall (c : cfg) (chain : list header) (now : Z) (hs : list header) (seals : list bool) (sched : list event) (s : bstate),
+    batch_ok chain hs ->
+    brun (verify_worker c chain now hs seals) (length hs) b_init sched = Some s ->
+    b_finished s = true ->
+    first_failure (b_delivered s) 0 = sequential c chain now hs seals 0.
+Proof. exact batch_equals_sequential. Qed.
+Print Assumptions C13_batch_equals_sequential.
+
+(* progress: in every reachable state in which the collector has not returned, an event is enabled (no deadlock);
+   so every maximal run ends with b_finished = true, i.e. all n results delivered *)
+Theorem C13_collector_progress :
+  forall (v : nat -> res unit) (n : nat), (0 < n)%nat ->
+  forall (sched : list event) (s : bstate),
+    brun v n b_init sched = Some s -> b_finished s = false -> exists e, bstep v n s e <> None.
+Proof. exact collector_progress. Qed.
+Print Assumptions C13_collector_progress.
+
+(* uncles at ANY height, the hard-coded historic exceptions stated explicitly (uncles_spec, HeaderSpec.v) *)
+Theorem C13_uncles_iff_any_height :
+  forall (c : cfg) (chain : list header) (blocks : list block) (now : Z) (b : block),
+    let bh := bl_header b in
+    let '(number, anc, unc) := gather 7 blocks (h_parent bh) (u64 (big_uint64 (h_number bh) - 1)) [] [] in
+    (verify_uncles c chain blocks now b = Ok tt <->
+     Z.of_nat (length (bl_uncles b)) <= max_uncles_at c (h_number bh) /\
+     bl_version b <> 0 /\
+     uncles_spec c chain now number (h_hash bh) (h_parent bh) ((h_hash bh, bh) :: anc) (h_hash bh :: unc) (bl_uncles b)).
+Proof. exact uncles_iff_any_height. Qed.
+Print Assumptions C13_uncles_iff_any_height.
+
+(* the exceptions: exactly these, and only while the loop counter is <= 15000 *)
+Theorem C13_historic_exceptions_iff :
+  forall (number : Z) (block_hash uparent uhash : bytes) (unum : Z),
+    (dup_allowed number block_hash unum = true <-> number <= 15000 /\ In (block_hash, big_uint64 unum) dup_wl) /\
+    (dangling_allowed number uparent uhash unum = true <->
+     number <= 15000 /\ (In (uparent, big_uint64 unum) dangling_parent_wl \/ In (uhash, big_uint64 unum) dangling_hash_wl)).
+Proof. exact historic_exceptions_iff. Qed.
+Print Assumptions C13_historic_exceptions_iff.
 
 (* non-vacuity: a valid header on the generated mainnet schedule at the HF5 fork block, rejected when any rule is
    missed by one; three completion orders of a batch of four *)
@@ -180,7 +216,7 @@ Example C13_example :
   verify_header mainnet_cfg [] 1530000300 (h 46039387 (4712388 + 4600) 1530000315) (Some p) None false true = Err EDifficulty /\
   verify_header mainnet_cfg [] 1530000300 (h 46039386 (4712388 + 4601) 1530000315) (Some p) None false true = Err EGasLimit /\
   verify_header mainnet_cfg [] 1530000300 (h 46039386 (4712388 + 4600) 1530000000) (Some p) None false true = Err EZeroTime.
-Proof. vm_compute. repeat split; reflexivity. Qed.
+Proof. exact header_example. Qed.
 
 Example C13_batch_example :
   let v := fun i : nat => if Nat.eqb i 2 then @Err unit EZeroTime else Ok tt in
